@@ -303,7 +303,7 @@ class C10(Suite):
     case_ty = "case"
     obs_ty = "obs"
     kf = "kf"
-    kf_ids = {1: "F10a", 2: "F10b", 3: "F10c", 4: "F10d", 5: "F10e", 6: "F10f", 7: "F10g"}
+    kf_ids = {1: "F10a", 2: "F10b", 3: "F10c", 4: "F10d", 5: "F10e", 6: "F10f", 7: "F10g", 8: "F10h"}
     corr = ("update.evalUpdate/evalInsertData/evalDeleteData/evalDeleteWhere/evalModify/evalClear/evalDrop/evalAdd/"
             "evalMove/evalCopy/_graphAll/_graphOrDefault, evalutils._fillTemplate")
     quick_n = 900
@@ -351,7 +351,11 @@ class C10(Suite):
                 # must not be picked up by a later WHERE: their names cannot cross the boundary
                 seen_bnode = tmpl_has_bnode(ins) or (ins is not None and any(g[0] == "v" for g, _ in ins["q"]))
             elif x < 0.55 and not seen_bnode:
-                ops.append(["delwhere", gen_tmpl(rng, False, allow_q, legal_only=True)])
+                tm = gen_tmpl(rng, False, allow_q, legal_only=True)
+                # F10h: with two triple patterns outside GRAPH rdflib matches lazily while deleting and the
+                # outcome depends on the engine's enumeration order, which the model cannot follow
+                tm["t"] = tm["t"][:1]
+                ops.append(["delwhere", tm])
             elif x < 0.65:
                 ops.append(["insdata"] + list(gen_data(rng, allow_q)))
             elif x < 0.73:
